@@ -343,7 +343,7 @@ theorem evalCallExpr_nonsym_simF {n : Nat} (hE : FClaimE n) (e : Expr) (he : Ff 
     run_runGen_any _ s0 _ gs' hc hfns
   generalize hs : withLoops s0 gs' = s at hgen
   have hrel : RelF m s rs env := by
-    subst hs; exact hrel0.of_same rfl rfl rfl rfl rfl rfl hrel0.heap hrel0.trace hrel0.hok
+    subst hs; exact hrel0.of_same rfl rfl rfl rfl rfl rfl hrel0.heap hrel0.trace hrel0.hok ⟨hk.1.loopsLen, hk.1.loopsGet⟩
   have hs0 : FrameF s0 s ∧ s.data = s0.data ∧ s.pc = s0.pc := by
     subst hs
     exact ⟨⟨⟨rfl, rfl, rfl, rfl, Nat.le_refl _, fun _ _ => rfl, hk.1.loopsLen, hk.1.loopsGet⟩, Nat.le_refl _, fun _ _ => rfl⟩,
@@ -369,6 +369,7 @@ theorem evalCallExpr_nonsym_simF {n : Nat} (hE : FClaimE n) (e : Expr) (he : Ff 
     have hframe : FrameF s { s4 with addr := s.addr, curfunc := s.curfunc, pc := s.pc, data := s.data } :=
       ⟨⟨fr4.linear, rfl, rfl, fr4.susp, hfl, hfo, fr4.loopsLen, fr4.loops⟩, fr4.scLen, fr4.flags⟩
     have hfn0 : s.fns.length = s0.fns.length := by subst hs; rfl
+    have hle4 : LoopsExt s s4 := ⟨fr4.loopsLen, fr4.loops⟩
     refine ⟨M + 2, { s4 with addr := s.addr, curfunc := s.curfunc, pc := s.pc, data := s.data }, m4, v,
       fun fuel hf => ?_, hs0.2.1, hs0.2.2, hv, ?_,
       fun id hid => hm4 id (by show id < (s.fns ++ [_]).length; simp; omega),
@@ -377,7 +378,7 @@ theorem evalCallExpr_nonsym_simF {n : Nat} (hE : FClaimE n) (e : Expr) (he : Ff 
       rw [hunf f, hM f (by omega)]
       simp only [hbal]
       rfl
-    · exact hrel.back rel4 rfl rfl rfl rfl fr4.linear rfl fr4.flags hfl hfo ext4.1
+    · exact hrel.back rel4 rfl rfl rfl rfl fr4.linear rfl fr4.flags hfl hfo ext4.1 hle4
     · exact ValIn.mono hcl4 (fun id hg => hg.mono (FnsKeep.of_fns_eq rfl) (Nat.le_refl _) (fun _ _ => rfl) (RExt.refl _) rfl)
   | err rs' =>
     rw [hres] at hsim
@@ -785,7 +786,7 @@ theorem simF_call_builtin {k : Nat} (hA : FClaimA (k + 1)) {h name : String} (hn
         rw [hexec (G + 1), run_bind, hM (G + 1 + 1) (by omega)]
         simp only
         rw [hlen, hcu G, hres]; rfl
-      have hrelF : RelF m1 sF rsF env := rel1.of_same hsc hlin hfns rfl hfr hcl hheap htr hhok
+      have hrelF : RelF m1 sF rsF env := rel1.of_same hsc hlin hfns rfl hfr hcl hheap htr hhok (LoopsExt.of_eq hlps)
       have hfnF : fnOf sF sF.curfunc = fnOf s s.curfunc := by
         show s3.fns.getD s1.curfunc {} = _
         rw [hfns, fr1.curfunc]; exact fr1.fns _ hcurlt
@@ -1053,7 +1054,7 @@ theorem tmpl_facts (isFn : Nat → Bool) (gs g₂ : GS) (fname : String) (ps : L
   have hlf : (gsFin g₂ gs.fns.length b).fns.length = g₂.fns.length := by simp [gsFin]
   have hlen := hgen.len
   rw [hlf] at hlen
-  refine ⟨?_, by omega, ⟨hgen.live, by have := hgen.main; simp [gsAlloc]; omega, hlen, fun t h1 h2 => ?_⟩⟩
+  refine ⟨?_, by omega, ⟨hgen.live, by have := hgen.main; simp [gsAlloc]; omega, hlen, fun t h1 h2 => ?_, hgen.loops⟩⟩
   · rw [hgen.tmpl gs.fns.length (Nat.le_refl _) (by rw [hlf]; omega), gsFin_getD_self _ _ _ (by omega)]
     exact finTmpl_eq isFn gs g₂ fname ps b hk
   · have h1' : gs.fns.length + 1 ≤ t := by simpa [gsAlloc] using h1
